@@ -39,3 +39,49 @@ let run_a = function
       let outs = run_async rc.cfg (parse_rscript script) (unhex input) in
       print_routs ~offsets:(mode <> "s") outs
   | _ -> raise (Bad "A")
+
+let split_w (res : string) : string list * string =
+  match String.rindex_opt res '|' with
+  | None -> raise (Bad "X-w")
+  | Some i ->
+      let toks = List.filter (fun s -> s <> "") (String.split_on_char ' ' (String.sub res 0 i)) in
+      (toks, String.sub res (i + 2) (String.length res - i - 2))
+
+let run_x = function
+  | [ spec; ops; rcfg; mode ] ->
+      let w = run_w [ spec; ops ] in
+      let (toks, dest) = split_w w in
+      if mode = "f" then w ^ " | " ^ run_r ~cap:false [ spec; rcfg; "-"; dest; "N" ]
+      else begin
+        let b = Buffer.create 256 in
+        Buffer.add_string b w; Buffer.add_string b " |";
+        (try
+           List.iter (fun tok ->
+               match String.rindex_opt tok '@' with
+               | None -> raise Exit
+               | Some i ->
+                   let n = int_of_string (String.sub tok (i + 1) (String.length tok - i - 1)) in
+                   let prefix = if n = 0 then "-" else String.sub dest 0 (2 * n) in
+                   Buffer.add_string b " ["; Buffer.add_string b (run_r ~cap:false [ spec; rcfg; "-"; prefix; "N" ]); Buffer.add_char b ']') toks
+         with Exit -> ());
+        Buffer.contents b
+      end
+  | _ -> raise (Bad "X")
+
+let run_y = function
+  | [ spec; rcfg; input ] ->
+      let r1 = run_r ~cap:false [ spec; rcfg; "-"; input; "N" ] in
+      let items = String.split_on_char ' ' r1 in
+      let n = List.length items in
+      if n = 0 || List.nth items (n - 1) <> "N" then r1
+      else begin
+        let tags = List.filteri (fun i _ -> i < n - 1) items in
+        let ops = String.concat "," (List.map (fun it ->
+            match String.rindex_opt it '@' with
+            | Some i -> "wd:" ^ String.sub it 0 i
+            | None -> raise (Bad "Y-item")) tags @ [ "x" ]) in
+        let w = run_w [ spec; ops ] in
+        let (_, dest) = split_w w in
+        r1 ^ " | " ^ w ^ " | " ^ run_r ~cap:false [ spec; rcfg; "-"; dest; "N" ]
+      end
+  | _ -> raise (Bad "Y")
